@@ -282,6 +282,19 @@ class UnitOfWork(object):
                     self.current_transaction.id
                 }
             )
+            # An association may change more than once within a transaction
+            # (linked and unlinked again, or linked and its parent deleted).
+            # Only the last change is kept, one row per association and
+            # transaction.
+            session.execute(
+                stmt.table.delete().where(
+                    sa.and_(*[
+                        stmt.table.c[key] == value
+                        for key, value in stmt.compile().params.items()
+                        if key != 'operation_type'
+                    ])
+                )
+            )
             session.execute(stmt)
         self.pending_statements = []
 
